@@ -9,4 +9,9 @@ NoDev == {}
 DevSplit == {"SplitCheckInsert"}
 DevGetNoLock == {"GetWithoutLock"}
 DevReadLock == {"ReadLockForWrite"}
+DevClearPerName == {"ClearPerName"}
+(* the scenario of a Clear that is not atomic over the names: one goroutine registers, one clears, one looks up *)
+WalkAllowed(p, o) == \/ p = p1 /\ o.kind = "Registry" /\ o.svc \in {<<"A", 1>>, <<"B", 1>>}
+                     \/ p = p2 /\ o.kind = "Clear"
+                     \/ p = p3 /\ o.kind = "Get"
 =============================================================================
